@@ -186,7 +186,7 @@ def _settings_reads(prog: Program, qualnames: List[str], pname="settings") -> Se
     return out
 
 
-def _r4(ck: Checker, prog: Program):
+def _r4(ck: Checker, prog: Program, rule: str = "C04.R4"):
     f = prog.func("processing.azimuthal_hvsr_processing")
     fq = f.qualname
     reads = _settings_reads(prog, ["processing.traditional_single_azimuth_hvsr_processing", "processing.prepare_fft_settings",
@@ -209,14 +209,14 @@ def _r4(ck: Checker, prog: Program):
     for st in lp.body:
         if isinstance(st, ast.Assign) and isinstance(st.targets[0], ast.Attribute) and unparse(st.targets[0].value) == svar:
             set_in_loop[st.targets[0].attr] = unparse(st.value)
-    ck.floor("C04.R4", len(reads), 5, "settings fields read by the single-azimuth path")
+    ck.floor(rule, len(reads), 5, "settings fields read by the single-azimuth path")
     for fld in sorted(reads):
         if fld in given and given[fld] == f"settings.{fld}":
-            ck.ok("C04.R4", fq, f"{fld} forwarded")
+            ck.ok(rule, fq, f"{fld} forwarded")
         elif fld in set_in_loop and fld == "azimuth_in_degrees" and set_in_loop[fld] == az:
-            ck.ok("C04.R4", fq, f"{fld} = loop azimuth")
+            ck.ok(rule, fq, f"{fld} = loop azimuth")
         else:
-            ck.violation("C04.R4", fq, f"settings field {fld}",
+            ck.violation(rule, fq, f"settings field {fld}",
                          f"`{fld}` is read by the single-azimuth processing but is not forwarded from the azimuthal settings "
                          f"(given: {given.get(fld) or set_in_loop.get(fld)}): the azimuthal result would not be the stack of single-azimuth results",
                          loc=f.loc(cons[0]))
@@ -234,17 +234,17 @@ def _r4(ck: Checker, prog: Program):
     pair = len(ctor) == 1 and len(ctor[0].args) >= 2 and unparse(ctor[0].args[0]) == unparse(app[0].func.value) if app else False
     pair = pair and unparse(ctor[0].args[1]) == "settings.azimuths_in_degrees"
     if good and pair and reaching(f).only_param("records", call[0]) and reaching(f).only_param("settings", lp):
-        ck.ok("C04.R4", fq, norm_key(lp), detail="result i = single-azimuth processing at azimuth i; paired with the azimuth list")
+        ck.ok(rule, fq, norm_key(lp), detail="result i = single-azimuth processing at azimuth i; paired with the azimuth list")
     else:
-        ck.violation("C04.R4", fq, "azimuth loop", "the azimuthal result is not the in-order list of single-azimuth results paired with settings.azimuths_in_degrees",
+        ck.violation(rule, fq, "azimuth loop", "the azimuthal result is not the in-order list of single-azimuth results paired with settings.azimuths_in_degrees",
                      loc=f.loc(lp))
     # single-azimuth body uses its settings' azimuth
     g = prog.func("processing.traditional_single_azimuth_hvsr_processing")
     c = [x for x in calls_in(g.node, "single_azimuth") if isinstance(x.func, ast.Name)]
     if len(c) == 1 and len(c[0].args) == 3 and unparse(c[0].args[2]) == "settings.azimuth_in_degrees":
-        ck.ok("C04.R4", g.qualname, "projection azimuth = settings.azimuth_in_degrees")
+        ck.ok(rule, g.qualname, "projection azimuth = settings.azimuth_in_degrees")
     else:
-        ck.violation("C04.R4", g.qualname, "projection azimuth", "the projection does not use settings.azimuth_in_degrees", loc=g.loc())
+        ck.violation(rule, g.qualname, "projection azimuth", "the projection does not use settings.azimuth_in_degrees", loc=g.loc())
 
 
 def _r5(ck: Checker, prog: Program):
